@@ -238,9 +238,8 @@ func (w *world) Connection(ctx context.Context, addr, dialer string) (*grpc.Clie
 		once.Do(func() {
 			w.mu.Lock()
 			w.refs[tg.spec.Addr]--
-			left := w.refs[tg.spec.Addr]
 			w.mu.Unlock()
-			w.rec(name, kRelease, ar.n, 0, nil, fmt.Sprintf("refs=%d", left))
+			w.rec(name, kRelease, ar.n, 0, nil, "")
 		})
 	}
 	return conns[tg.spec.Addr], done, nil
@@ -421,12 +420,17 @@ func (sc *Scenario) retryBound() time.Duration {
 
 // runScenario executes sc inside its own synctest bubble and judges the trace.
 func runScenario(t *testing.T, sc *Scenario) (st *stats, err error) {
+	st, _, err = runScenarioTrace(t, sc)
+	return st, err
+}
+
+func runScenarioTrace(t *testing.T, sc *Scenario) (st *stats, trace []Ev, err error) {
 	st = &stats{}
 	if verr := sc.validate(); verr != nil {
-		return st, failf("harness-error", "invalid scenario: %v", verr)
+		return st, nil, failf("harness-error", "invalid scenario: %v", verr)
 	}
 	if cerr := dummyConns(); cerr != nil {
-		return st, failf("harness-error", "grpc.NewClient: %v", cerr)
+		return st, nil, failf("harness-error", "grpc.NewClient: %v", cerr)
 	}
 	oldBase, oldMax, oldRand := manager.RetryBaseDelay, manager.RetryMaxDelay, manager.RetryRandomization
 	manager.RetryBaseDelay, manager.RetryMaxDelay, manager.RetryRandomization = ms(sc.BaseMs), ms(sc.MaxMs), float64(sc.RandPct)/100
@@ -460,12 +464,13 @@ func runScenario(t *testing.T, sc *Scenario) (st *stats, err error) {
 		runErr = w.execute()
 	})
 	if runErr != nil {
-		return st, runErr
+		return st, w.trace, runErr
 	}
 	if w.harnessErr != "" {
-		return st, failf("harness-error", "%s", w.harnessErr)
+		return st, w.trace, failf("harness-error", "%s", w.harnessErr)
 	}
-	return judge(sc, w.trace)
+	st, err = judge(sc, w.trace)
+	return st, w.trace, err
 }
 
 func (w *world) tail(tgt string, n int) string {
